@@ -26,8 +26,8 @@ CLAIMED = {
  "C16": ("Bounded model checking: (a) on every path of Parse over all frames of length 0..1536 each returned view aliases the caller's buffer (same backing object) at the reference decoder's offset and stays inside the frame; (b) for every well-formed frame from an already tracked online host (IPv4, IPv6 link-local, ARP) the reachability of every allocating SSA instruction inside Parse is an SMT query that must be unsat; a reachable site is replayed natively with the runtime's malloc counter.",
          "Trusted: go/ssa, gse semantics, z3. Allocation is decided at SSA level (heap Alloc in repository code, make, closures, boxing, growing append, string conversions, go, fmt.Errorf); the gc compiler's escape analysis is outside the model.",
          "DESIGN.md §4 C16", "bounded symbolic execution with provenance assertions and SMT-decided unreachability of allocation sites"),
- "C19": ("Bounded model checking of the echo waiter protocol: echoNotify from every waiter table of <= 3 entries, Parse on every ICMPv4/ICMPv6 frame up to 80 bytes with a pending waiter (completion iff the reference decoder sees a well-formed echo reply with that identifier), and ping/Ping6 against a programmable connection for every identifier-counter value (no reply, send failure, matching reply, foreign identifier, overlapping second ping): nil iff own reply, distinct identifiers, no waiter left behind.",
-         "Trusted: go/ssa, gse semantics (channels/select in sequential mode: timer arm always enabled, closed wake-up channel enables its arm, all enabled arms explored), z3. Real goroutine interleavings are not explored.",
+ "C19": ("Bounded model checking of the echo waiter protocol: echoNotify from every waiter table of <= 3 entries, Parse on every ICMPv4/ICMPv6 frame up to 80 bytes with a pending waiter (completion iff the reference decoder sees a well-formed echo reply with that identifier), and ping/Ping6 against a programmable connection for every identifier-counter value (no reply, send failure, matching reply, foreign identifier, overlapping second ping): nil iff own reply, distinct identifiers, no waiter left behind. Thread mode: two concurrent pings and a packet-loop goroutine parsing the replies in either order, with 0, 1 or 2 timer firings per path: happens-before race check, distinct identifiers, both succeed when no timer fires, no waiter left behind.",
+         "Trusted: go/ssa, gse semantics (channels/select in sequential mode: timer arm always enabled, closed wake-up channel enables its arm, all enabled arms explored; thread mode as in C09 for the concurrent scenario), z3.",
          "DESIGN.md §4 C19", "bounded symbolic execution with symbolic waiter tables / identifier counter, SMT-decided completion conditions"),
  "C04": ("Bounded model checking by induction: from every symbolic host/MAC-table state of the bounded shapes that satisfies the representation invariant, one step (Parse+Notify of an IPv4 / ARP / IPv6 frame with every header field symbolic, purge(now), DHCPv4Update) is executed from the real SSA and the post-state is compared with a reference transition model over (MAC, IP, online) triples: creation predicate, IPv4 supersession, re-binding of an address claimed by another MAC, offline / purge cut-offs, everything else unchanged.",
          "Trusted: go/ssa, gse semantics, z3, the reference transition model written in the harness, the invariant (assumed on the pre-state, asserted on the post-state by C05). Shapes: <= 2 MAC entries, <= 3 hosts (evidence.bounds).",
